@@ -205,6 +205,10 @@ def check(prog: Program, rep):
     if _pa(prog, rep, "C02.R11", [prog.own_method(c, "is_valid_solution") for c in ['kFlowDecomp', 'kFlowDecompCycles']],
            "is_valid_solution() reports the model's own optimal solution invalid (5 - 7 = 254 for np.uint8)") < 2:
         raise _AE("is_valid_solution: the comparison of the flow values with the load of the routes was not found")
+    # the flow-safe paths of kFlowDecomp / MinFlowDecomp are computed in the constructor: the readers of the scan must take every real flow value (C06.R7)
+    from rules.c06 import readers_take_every_number as _rten
+    from rules.common import RuleProxy as _RPr
+    _rten(prog, _RPr(rep, "C02.R11"), "C06.R7")
     # the consumers replace the product of an edge flagged `= 1` / `= 0` by the weight / by 0: the flag has to be set exactly where the matching constraint
     # (or queued fix) is stated (C05.R1)
     from rules.common import RuleProxy as _RPf
